@@ -15,7 +15,7 @@ CHECKS = {
     ref="DESIGN.md section 4 / C10, 3.2"),
  "C09": dict(
     level="other", technique="static analysis: value-flow (Herbrand terms) of setup()+initializeSolution() against the nested-iteration recursion",
-    text="setup() and initializeSolution() are interpreted from source in every FMG mode (levels 2..5, 0..3 start-up cycles of each type, each extrapolation mode): the finest-level start vector, as a term over the operator symbols, must be the nested iteration from the coarsest direct solve and contain no leaf left by history; per-level right-hand sides must be D_l(Inj^l f) and every vector/operator used must be allocated/initialised by setup(). The FMG interpolation weight tables (copy, sum 1, cubic exactness) are added by the TAB engine when built.",
+    text="setup() and initializeSolution() are interpreted from source in every FMG mode (levels 2..5, 0..3 start-up cycles of each type, each extrapolation mode): the finest-level start vector, as a term over the operator symbols, must be the nested iteration from the coarsest direct solve and contain no leaf left by history; per-level right-hand sides must be D_l(Inj^l f) and every vector/operator used must be allocated/initialised by setup(). The FMG interpolation weight table is extracted symbolically like C08's: copy at coarse nodes, weights sum to one, all mixed monomials r^a theta^b (a,b<=3) reproduced except on the two radial lines next to the boundaries, which use the linear fallback (its off-midpoint first moment is a recorded known finding).",
     note="Trusted: as C10. Not decided: 'discretisation-level accuracy' of the start vector (numerical).",
     ref="DESIGN.md section 4 / C09"),
  "C01": dict(
@@ -48,6 +48,11 @@ CHECKS = {
     text="Decides the memory-safety and structural half: every integer in the grid generators that depends on the caller's parameters through a float->int conversion or unchecked arithmetic must carry a runtime lower and upper bound before it is used as an index offset, iterator advance or shift amount (asserts are compiled out); constructors validate after the last coordinate write; chooseNumberOfLevels (interpreted from source for nr 2..139 x ntheta 2..129 x level caps) implies coarseningGrid's precondition level by level and rejects fewer than two levels; end points are pinned to the exact boundary. Strict monotonicity, midpoint/nesting values and the text round trip are floating-point statements and are not decided.",
     note="Trusted: clang front end, gmgir lowering, the taint rule's evidence vocabulary. The taint rule demands the presence of a runtime bound, not its arithmetic adequacy (adequacy of the repaired window was established once by an ASan/UBSan scan recorded in DESIGN.md).",
     ref="DESIGN.md section 4 / C18"),
+ "C08": dict(
+    level="proof", technique="static analysis: symbolic interpretation of the nine transfer functions into exact weight tables (rational-function DAGs); identities decided by polynomial identity testing on the extracted tables",
+    text="Each transfer function is interpreted from source with integers concrete and every floating-point value an exact rational function of grid-spacing symbols, on fine/coarse grid pairs covering every node class (boundary, next-to-boundary, interior; odd/even in each direction; circle and radial section; both boundary modes; differing splits). The extracted weight tables give: restriction == prolongation^T for both pairs, optimised == reference for all four operators, copy at coarse nodes and injection o prolongation = id, convex weights summing to one, and the first-moment (linear reproduction) conditions for arbitrary spacings and for midpoint grids. The off-midpoint moment failure the property records is re-derived on every run and listed as a known finding.",
+    note="Trusted: clang front end, gmgir lowering, own IR interpreter, identity testing by exact rational evaluation of the extracted DAGs at 4 pseudo-random points (error probability < 1e-17; a non-zero value is a definite witness). Not decided: thread-count independence (C11), rounding.",
+    ref="DESIGN.md section 4 / C08, 3.4"),
 }
 NA = {
  "C02": "order of accuracy is a limit statement about numerical error under refinement; no clause is visible in the shape of the code (its code-shaped preconditions are checked under C03/C10/C19)",
